@@ -538,5 +538,9 @@ def check_case(case, ctx):
                         sub = "undecodable-rdata-placeholder"
                 if k == "flags" and (ref[k] ^ got[k]) & ~0x0070 == 0:
                     sub = "flags:z-ad-cd-bits-dropped"
+                if case["msg"] in ("http-req", "http-resp"):
+                    # the view strips a 2-byte length prefix from HTTP bodies too, but DoH bodies (RFC 8484) have none:
+                    # what was rendered (and re-encoded) is a different message
+                    sub = "http-body-length-prefix-assumed"
                 ctx.fail("dns-roundtrip:%s" % sub, "wire=%r out=%r\n orig=%r\n got=%r\n text=%r" % (wire[:150], out[:150], ref[k], got[k], text[:300]))
                 break
